@@ -42,7 +42,7 @@ func (prop) Rule() string {
 func (prop) Gen(r *core.Rand, tier string) []core.Case {
 	n := 100
 	if tier == "thorough" {
-		n = 1500
+		n = 800
 	}
 	cs := []core.Case{
 		{ID: "fix-stale-persist", NT: true, Ops: []string{"reg 0 1", "start 0 0 r 5", "start 1 0 r 3", "release 1", "release 0", "release 1", "get 0", "restart", "get 0"}},
